@@ -352,6 +352,9 @@ def decode_fixed_tuple(args, d, tvmap, o):
         for i, a in enumerate(args):
             out.append(ref_decode(a, d[i], tvmap, o))
         return tuple(out)
+    if len(d) < len(before) + len(after):
+        # every fixed item needs an input item of its own (no item may serve a leading and a trailing position at once)
+        raise IndexError("tuple input shorter than its fixed items")
     for i, a in enumerate(before):
         out.append(ref_decode(a, d[i], tvmap, o))
     end = len(d) - len(after) if after else len(d)
